@@ -55,6 +55,10 @@ func gen(c *run.Ctx, cs Case) *pipe.Workload {
 	case "reader-raw":
 		o.ReaderMode = true
 		return pipe.GenRaw(r, o)
+	case "aligned":
+		return pipe.GenAligned(r, false)
+	case "reader-aligned":
+		return pipe.GenAligned(r, true)
 	case "pinned":
 		return pinned(cs.Name)
 	}
@@ -78,7 +82,7 @@ func pinned(name string) *pipe.Workload {
 	case "exact-batch-multiple":
 		return mk(base, "f0:1:M:a\nf0:2:M:b\nf0:3:M:c\nf0:4:M:d\n", "f1:1:M:a\nf1:2:I:b\n")
 	case "all-classes":
-		return mk(base, "f0:1:M:a\nf0:2:E:a\nf0:3:I:a\nf0:4:W:a\nf0:5:U:a\n\n\r\nf0:8:M:z\r\n")
+		return mk(base, "f0:1:M:a\nf0:2:E:a\nf0:3:I:a\nf0:4:W:a\nf0:5:U:a\n\n\r\nf0:8:M:z\r\nf0:9:J:a\n")
 	case "empty-files":
 		return mk(base, "", "\n", "", "f3:1:M:only\n", "")
 	case "many-workers-batch1":
@@ -88,7 +92,7 @@ func pinned(name string) *pipe.Workload {
 		for i := 0; i < 9; i++ {
 			var sb strings.Builder
 			for n := 1; n <= 300; n++ {
-				fmt.Fprintf(&sb, "f%d:%d:%c:p\n", i, n, "MEIWU"[n%5])
+				fmt.Fprintf(&sb, "f%d:%d:%c:p\n", i, n, "MEIWUJ"[n%6])
 			}
 			datas = append(datas, sb.String())
 		}
@@ -116,11 +120,13 @@ func Run(c *run.Ctx) {
 		{"raw", c.N(90, 2200)},
 		{"reader-structured", c.N(40, 800)},
 		{"reader-raw", c.N(20, 400)},
+		{"aligned", c.N(12, 200)},
+		{"reader-aligned", c.N(6, 100)},
 		{"cli", c.N(32, 480)},
 		{"cli-stdin", c.N(8, 120)},
 	}
 	if c.Flavour == "race" {
-		plans = []plan{{"structured", 700}, {"raw", 500}, {"reader-structured", 200}, {"reader-raw", 100}}
+		plans = []plan{{"structured", 700}, {"raw", 500}, {"reader-structured", 200}, {"reader-raw", 100}, {"aligned", 60}, {"reader-aligned", 30}}
 	}
 	idx := 0
 	for _, nm := range pinnedNames {
@@ -400,7 +406,7 @@ func ignoredByExpr(w *pipe.Workload, t pipe.LineTruth) bool {
 		return false
 	}
 	p := bytes.SplitN(t.Text, []byte(":"), 4)
-	return len(p) == 4 && string(p[2]) == "I"
+	return len(p) == 4 && (string(p[2]) == "I" || string(p[2]) == "J")
 }
 
 func keyFor(w *pipe.Workload, t pipe.LineTruth) string {
